@@ -126,7 +126,14 @@ def _check_greedy_rows(sx, sh, res, absorbing, q, tagp=''):
                      f'{tagp}policy-uniform-on-support[{s},{a}]')
 
 
-def vi_discounted(sx, shape, gamma, version, K, lab='int', direct=False):
+def _warm_mdp(sx, sh):
+    """a different problem over the same labels for planner-reuse runs: constant rewards, state 0 absorbing as well"""
+    shw = sh.with_(absorb=sorted(set(sh.absorb) | {0}))
+    rw = {(s, a, ns): sx.const(F(1 + ((2 * s + a + ns) % 4), 4)) for s in range(sh.S) for a in sh.avail[s] for ns in sh.rows[(s, a)]}
+    return build_mdp(sx, shw, rw)
+
+
+def vi_discounted(sx, shape, gamma, version, K, lab='int', direct=False, warm=False):
     """full planner run, K unrolled sweeps.  Proved on every converged path:
     (i) reported action values are the one-step look-ahead (independent oracle, masked model) of the
     reported state values, (ii) the Bellman residual of the reported values is within the configured
@@ -140,8 +147,12 @@ def vi_discounted(sx, shape, gamma, version, K, lab='int', direct=False):
     L, AL = sh.slabels, sh.alabels
     with facade(sx), shadow(sx, ['msdm.algorithms.valueiteration']):
         mdp = build_mdp(sx, sh, rew)
+        planner = ValueIteration(max_iterations=K, max_residual=eps, _version=version)
+        if warm:        # the same planner object first plans on another problem: nothing may carry over
+            with sx.must_not_raise('vi-plan(first problem)'):
+                planner.plan_on(_warm_mdp(sx, sh))
         with sx.must_not_raise('vi-plan'):
-            res = ValueIteration(max_iterations=K, max_residual=eps, _version=version).plan_on(mdp)
+            res = planner.plan_on(mdp)
         absorbing = implicit_absorbing(sh, rew)
         if not res.converged:
             sx.prove(res.iterations >= K - 1, 'not-converged-only-at-cap')
@@ -328,7 +339,7 @@ def _pi_common(sx, sh, rew, res, g, direct, isomax):
     sx.observe('V', [v[s] for s in range(sh.S)])
 
 
-def pi_discounted(sx, shape, gamma, lab='int', direct=False):
+def pi_discounted(sx, shape, gamma, lab='int', direct=False, warm=False):
     """policy iteration through its batch entry point.  Proved on every converged path: the reported
     action values are within g*iso of the one-step look-ahead (independent oracle) of the reported state
     values and v = max_a q, i.e. Bellman residual <= g*iso (iso = isclose tolerance), hence
@@ -340,8 +351,12 @@ def pi_discounted(sx, shape, gamma, lab='int', direct=False):
     K = (sh.A ** sh.S) + 2
     with facade(sx), fork_isclose(merge=MERGE_PI):
         mdp = build_mdp(sx, sh, rew)
+        planner = PolicyIteration(max_iterations=K)
+        if warm:
+            with sx.must_not_raise('pi-plan(first problem)'):
+                planner.plan_on(_warm_mdp(sx, sh))
         with sx.must_not_raise('pi-plan'):
-            res = PolicyIteration(max_iterations=K).plan_on(mdp)
+            res = planner.plan_on(mdp)
         isomax = F(1, 10**8) + F(1, 10**5) * (1 / (1 - g)) + F(1, 10**7)
         _pi_common(sx, sh, rew, res, g, direct, isomax)
 
@@ -512,6 +527,10 @@ def jobs(tier):
     yield ('vi_discounted', dict(shape=3, gamma='1/2', version='vectorized', K=4, lab='str'), o)
     yield ('vi_discounted', dict(shape=3, gamma='1/2', version='dict', K=3, lab='mixed'), o)
     yield ('pi_discounted', dict(shape=3, gamma='1/2', lab='str'), o)
+    for i in ([1, 3] if quick else range(len(SHAPES))):
+        yield ('vi_discounted', dict(shape=i, gamma='1/2', version='vectorized', K=4, warm=True), o)
+        yield ('vi_discounted', dict(shape=i, gamma='1/2', version='dict', K=3, warm=True), o)
+        yield ('pi_discounted', dict(shape=i, gamma='1/2', warm=True), o)
     for i, sh in enumerate(PROPER):
         if quick and sh.S > 3:
             continue
